@@ -50,7 +50,7 @@ CLAIMED: dict[str, tuple[str, str, str, str]] = {
         "and the constraint/marker round trips (C15/C13) are hypotheses of `dep_roundtrip_partial`; the whole-URL inverse and between-token "
         "whitespace are tied by correspondence (every run: parse dumps, printed texts, re-parse, reference acceptance, probe versions and "
         "environments on ~5k generated dependencies). Counterexample theorems show where the code itself breaks the statement.",
-        TB + "Partial: urllib, the git-URL regex cascade beyond the restricted grammar and file-system probes are outside the model (`unmodelled`, counted). Four known findings; three defects fixed in /repo.",
+        TB + "Partial: proved with no hypothesis about recogniser, constraint parser/printer (C15) or marker parser/printer (C13, C07): the recogniser on printed text; the round trip on registry dependencies with `*`, plain ranges and single versions (identical constraint), `!=V` (equivalent constraint) and markers of C13's comparison-operator domain (validate-equal); the round trip on URL dependencies without sub-directory. Open: VCS dispatch (whole-URL inverse of the git grammar), URL sub-directory and wheels, wildcard and disjunction spellings, in_extras, markers outside the domain; side conditions NoComment (false without it: known finding) and MarkerEnds. urllib, the git-URL regex cascade beyond the restricted grammar and file-system probes are outside the model (`unmodelled`, counted). A call-history stream renders siblings that differ in one loosely-compared field back to back. Four known findings; three defects fixed in /repo.",
         "DESIGN.md §4 C10",
     ),
     "C11": (
@@ -119,7 +119,7 @@ CLAIMED: dict[str, tuple[str, str, str, str]] = {
         "markers, several extras, equal specifiers), runs the real Factory -> Metadata.from_package pipeline, compares selection, Requires-Dist text, marker tree, "
         "truth vectors, Requires-Python and Provides-Extra with the model, and lets the reference (packaging) evaluate every Requires-Dist "
         "line on candidate versions x environments x extras sets and Requires-Python on the interpreter series.",
-        TB + "Partial: `requiresDist_faithful_partial` covers non-optional declarations with C13's print/parse fact and C07/C11 leaf facts as named hypotheses; version-specifier equivalence is C15's; set-level faithfulness of Requires-Python is a stated def checked by the oracle. Known finding single-version-precision-lt-3 (shared with C11).",
+        TB + "Partial: C13's print/parse fact is discharged on the full comparison-operator domain (`requiresDist_faithful_domain`); what remains as hypotheses is C07's LeafSpec on that domain and the domain conditions on the declared texts; PEP 621 selection is unconditional since repo fix ad4e259 (`pep621_entry_selected_iff`; the obligation exposed that `foo ; extra != \"x\"` vanished from Requires-Dist); version-specifier equivalence is C15's; set-level faithfulness of Requires-Python is a stated def checked by the oracle. Known findings: single-version-precision-lt-3 (shared with C11), optional-dependency-with-own-extra-clause-loses-membership.",
         "DESIGN.md §4 C02",
     ),
     "C03": (
